@@ -48,12 +48,15 @@ package ledger
 // failures (accounts are rich), rekeyed senders. Trusted: reading holdings from
 // StateDelta / Ledger.LookupAsset.
 //
-// Mutants shown DETECTED (bin/mut, quick tier):
+// Mutants, all DETECTED by the quick tier (bin/mut ... --only):
 //   M1 asset.go AssetTransfer: `takeOut(balances, source, ct.XferAsset, ct.AssetAmount, clawback)` -> `..., true)`
-//   M2 asset.go AssetConfig destroy: `if assetHolding.Amount != params.Total` -> `if assetHolding.Amount > params.Total` (stale/too weak comparison)
-//   M3 asset.go putIn: frozen receiver check dropped
-//   M4 asset.go close-out: `bypassFreeze := dstAssetParamsExist` -> `bypassFreeze := true`
-//   M5 asset.go AssetConfig: cleared clawback can be set again (multi-step)
+//      (freeze bypass for a non-clawback sender; found after create, optin, freeze, xfer)
+//   M2 asset.go AssetConfig destroy: `if assetHolding.Amount != params.Total {` ->
+//      `if assetHolding.Amount == 0 && params.Total != 0 {` (destroy while units are out; 4 steps)
+//   M3 asset.go putIn: `if rcvHolding.Frozen && !bypassFreeze {` -> `if false && ...` (frozen receiver)
+//   M4 asset.go close-out: `bypassFreeze := dstAssetParamsExist` -> `bypassFreeze := true || ...` (5 steps)
+//   M5 asset.go AssetConfig: `if !params.Clawback.IsZero() {` -> `if true {` (a cleared clawback can be
+//      set again; found by clear clawback + restore roles through the params comparison)
 
 import (
 	"errors"
